@@ -16,6 +16,8 @@ import PgProofs.NotifyEdit
 import PgProofs.NotifyBatch
 import PgProofs.NotifyRead
 import PgProofs.NotifyReentrant
+import PgProofs.NotifyThreads
+import PgProofs.NotifyReject
 namespace Pg.C09
 open T
 open Pg.C08 (Atom Key NotifyKind)
@@ -668,6 +670,87 @@ theorem C09_reentrant_fresh (react : React) (hreact : ∀ id rp rop, react id = 
     | some x =>
       obtain ⟨rp, rop⟩ := x
       exact C09_reentrant_fresh react hreact f t' rp rop ht' (hreact id rp rop hr)
+
+/-! ## Writes that a value spec refuses (KeyError by a nested schema, TypeError, ValueError) -/
+
+/-- A refused write — whatever the error class, whatever the field rules — delivers no event and
+leaves the tree (contents and memos) exactly as it was. -/
+theorem C09_rejected_write_no_trace (rules : Rules) (root : T) (recv : Path) (n : Bool) (op : Op)
+    (e : RejErr) (h : rejection rules root recv op = some e) :
+    (stepV rules root recv n op).tree = root ∧ (stepV rules root recv n op).ok = false ∧
+      (stepV rules root recv n op).events = [] := by
+  rw [stepV_rejected rules root recv n op e h]; exact ⟨rfl, rfl, rfl⟩
+
+/-- … so whatever is called next — in particular a mutation inside the old value that stayed in
+place — behaves exactly as if the refused write had never been attempted: an accepted call is the
+very `step root recv' n' op'` of the theorems above (events to every subscribing ancestor:
+`C09_contract`, `C09_bulk_*`; memos: `C09_fresh`). -/
+theorem C09_after_rejected_write (rules : Rules) (root : T) (recv : Path) (n : Bool) (op : Op)
+    (e : RejErr) (h : rejection rules root recv op = some e) (recv' : Path) (n' : Bool) (op' : Op) :
+    stepV rules (stepV rules root recv n op).tree recv' n' op' = stepV rules root recv' n' op' ∧
+    (rejection rules root recv' op' = none →
+      stepV rules (stepV rules root recv n op).tree recv' n' op' = step root recv' n' op') := by
+  rw [stepV_rejected rules root recv n op e h]
+  exact ⟨rfl, fun h' => stepV_accepted rules root recv' n' op' h'⟩
+
+/-- Freshness through refused writes: whether the call is refused or not, the memoised facts stay
+fresh. -/
+theorem C09_fresh_with_specs (rules : Rules) (n : Bool) (root : T) (recv : Path) (op : Op)
+    (hf : Fresh root) (hv : OpFresh op) : Fresh (stepV rules root recv n op).tree := by
+  cases h : rejection rules root recv op with
+  | some e => rw [stepV_rejected rules root recv n op e h]; exact hf
+  | none => rw [stepV_accepted rules root recv n op h]; exact C09_fresh n root recv op hf hv
+
+/-- Histories: dropping every call that was refused when its turn came changes nothing. -/
+theorem C09_history_rejected_invisible (rules : Rules) (hist : List VCall) (t : T) :
+    runV rules t hist = runV rules t (keepAccepted rules t hist) :=
+  runV_keepAccepted rules hist t
+
+/-- The three error classes, on an owner of class 5 whose field `opt` is a Dict with the schema
+{lr: any, n: Int(min_value=0)}: an unknown key, a str where an int is due, a negative int. -/
+example :
+    let rules : Rules := fun c k => if c == 5 && k == Key.s "opt" then
+      .dict [(Key.s "lr", .any), (Key.s "n", .int (some 0))] else .leaf .any
+    let d (items : List (Key × T)) : T := .node { id := 0, sub := false, cache := none } .dict items
+    let root : T := .node { id := 1, sub := true, cache := none, cls := 5 } .obj
+      [(Key.s "opt", d [(Key.s "lr", .leaf (.int 1)), (Key.s "n", .leaf (.int 0))])]
+    rejection rules root [] (.setKey (Key.s "opt") (d [(Key.s "lr", .leaf (.int 2)), (Key.s "stepz", .leaf (.int 5))])) = some .key ∧
+    rejection rules root [] (.setKey (Key.s "opt") (d [(Key.s "lr", .leaf (.int 2)), (Key.s "n", .leaf (.str "p"))])) = some .type ∧
+    rejection rules root [] (.rebind [([Key.s "opt"], d [(Key.s "lr", .leaf (.int 2)), (Key.s "n", .leaf (.int (-1)))])]) = some .value ∧
+    rejection rules root [] (.setKey (Key.s "opt") (d [(Key.s "lr", .leaf (.int 2)), (Key.s "n", .leaf (.int 3))])) = none := by
+  decide
+
+/-! ## Threads: the switch `notify_on_change` is local to the thread that set it -/
+
+/-- After ANY history of scope entries / exits and calls by any number of threads over the two
+trees, the stack of scopes of thread `t` is its initial stack with its own scope actions applied:
+what other threads enter or leave never shows in it. -/
+theorem C09_switch_thread_local (t : Nat) (hist : List NStep) (s : NState) :
+    (runN s hist).stacks t = (ownNActs t hist).foldl NAct.apply (s.stacks t) :=
+  runN_stacks t hist s
+
+/-- … so a thread that is inside no `notify_on_change` scope of its own makes fully notified calls,
+whatever scopes other threads have opened in the meantime: its call on a node of the first tree is
+`step _ recv true op` on the current tree — the call every contract theorem above speaks about
+(`C09_contract`, `C09_bulk_*`, `C09_fresh`, …) — and likewise on the second tree. -/
+theorem C09_other_threads_do_not_silence (t : Nat) (hist : List NStep) (s : NState)
+    (h0 : s.stacks t = []) (hown : ownNActs t hist = []) (recv : Path) (op : Op) :
+    (stepN (runN s hist) (.call t false recv true op)).2 = step (runN s hist).tree recv true op ∧
+    (stepN (runN s hist) (.call t true recv true op)).2 = step (runN s hist).ext recv true op := by
+  have hs : (runN s hist).stacks t = [] := by rw [runN_stacks, hown, h0]; rfl
+  simp [stepN, hs, switchOn]
+
+/-- … and a thread inside its own `notify_on_change(False)` is silent, whatever the others do. -/
+theorem C09_own_scope_silences (t : Nat) (s : NState) (rest : List Bool) (hs : s.stacks t = false :: rest)
+    (inExt w : Bool) (recv : Path) (op : Op) :
+    (stepN s (.call t inExt recv w op)).2 = step (if inExt then s.ext else s.tree) recv false op := by
+  cases inExt <;> simp [stepN, hs, switchOn]
+
+/-- A call on a node of one tree leaves the other tree exactly as it was (contents and memos). -/
+theorem C09_call_stays_in_its_tree (s : NState) (t : Nat) (recv : Path) (w : Bool) (op : Op) :
+    (stepN s (.call t true recv w op)).1.tree = s.tree ∧
+    (stepN s (.call t false recv w op)).1.ext = s.ext := by
+  simp [stepN]
 
 /-- A root dict whose cache is filled, holding one leaf. -/
 def exRoot : T :=
